@@ -36,14 +36,17 @@ def simulate(sp, grid, mode, seed, extend=False):
     return df[sp["species"]].to_numpy(dtype=float), df["time"].to_numpy(dtype=float)
 
 
-def rule_chain_check(res, sp, rows, times, mode, tag):
-    """(a) every repeated species assignment holds on every row, chain evaluated in declaration order."""
+def rule_chain_check(res, sp, rows, times, mode, tag, only=None):
+    """(a) every repeated species assignment holds on every row, chain evaluated in declaration order.
+    only: restrict the assertion to rules with this target."""
     names = sp["species"]
     for k in range(rows.shape[0]):
         env = dict(sp["params"])
         st_ = {s: float(rows[k, i]) for i, s in enumerate(names)}
         for j, rl in enumerate(sp["rules"]):
             if rl.get("freq", "repeated") != "repeated" or rl["type"] == "ode":
+                continue
+            if only is not None and rl["dest"] != only:
                 continue
             e = dict(env)
             e.update(st_)
@@ -120,6 +123,9 @@ def check(case):
             res.fail(("ode_rule_steps", mode, "with_reactions" if case.get("dynamic") else "no_reactions") + (("parameter_target",) if case.get("target") == "parameter" else ()),
                      row=k + 1, increment=float(X[k + 1] - X[k]), expected=exp, dt=dt)
         res.nontrivial = events >= 1
+    if case.get("mirror_rule") and not res.fails:
+        rule_chain_check(res, sp, rows, times, mode, "after_non_repeated_rule", only="M1")
+        res.label("repeated_rule_after_a_non_repeated_one")
     if events >= 1:
         res.label("reaction_events_between_rows")
     if case.get("exhausts"):
@@ -262,6 +268,14 @@ def schedule_case(draw, mode, grid):
         case["rate"] = rate
     if "increment" in case:
         x0["B0"] = case["increment"]
+    if draw(st.booleans()):
+        # a plain repeated rule (short 2-tuple form) declared after the scheduled / dt / ODE rule and reading what the
+        # reactions change: it must hold on every row like any other repeated rule
+        b.species.append("M1")
+        x0["M1"] = 0.0
+        tree = ["add", gen.sym("A"), gen.sym("B"), gen.num(2.0)]
+        b.rules.append({"type": "assignment", "eq": f"M1 = {ref.show(tree)}", "freq": "repeated", "tree": tree, "dest": "M1"})
+        case["mirror_rule"] = True
     case["spec"] = b.spec(x0)
     return case
 
